@@ -179,7 +179,7 @@ def run_special(pid, tier, seed, work, cfg):
                 # build than in the interpreter (a point within the 1e-8 "grid magnetism" of a line, or a shrink factor
                 # equal to 1 within rounding, falls on different sides in the two builds)
                 dd = cj["desc"]["d"]
-                key = "C19:ray-vertex-count-sensitivity" if name.startswith("ray_") and (abs(len(a) - len(b)) <= 2 * nd_ or (name == "ray_True" and max(dd) / min(dd) >= 4)) else "C19:shape"
+                key = "C19:ray-vertex-count-sensitivity" if name.startswith("ray_") and (abs(len(a) - len(b)) <= 2 * nd_ or max(dd) / min(dd) >= 4) else "C19:shape"
                 de = cj["desc"]
                 on_hull = any(abs(de["src"][k_] - de["o"][k_]) <= 1e-9 * dd[k_] or abs(de["src"][k_] - de["o"][k_] - dd[k_] * de["cells"][k_]) <= 1e-9 * dd[k_]
                               for k_ in range(de["nd"]))
@@ -199,7 +199,21 @@ def run_special(pid, tier, seed, work, cfg):
                     bad += 1
             if bad:
                 if name.startswith("gradient") or name.startswith("ray"):
-                    key = "C19:gradient-tie-flip" if bad <= max(2, len(a) // 20) or name.startswith("ray") else "C19:gradient"
+                    # F9 is keyed by the number of NODES whose gradient vector differs (a symmetric model flips the tie at
+                    # the two mirror-image nodes together): at most 2 nodes or 5 % of them
+                    nd_g = cj["desc"]["nd"]
+                    tol_ = lambda x, y: abs(x - y) > 1e-9 * sc + 4 * math.ulp(max(abs(x), abs(y), 1e-300))  # noqa: E731
+                    bad_nodes = sum(1 for q in range(0, len(a) - nd_g + 1, nd_g)
+                                    if any((math.isnan(a[q + c_]) != math.isnan(b[q + c_])) or (not math.isnan(a[q + c_]) and tol_(a[q + c_], b[q + c_])) for c_ in range(nd_g)))
+                    few = bad_nodes <= max(2, (len(a) // nd_g) // 20) if name.startswith("gradient") else True
+                    key = "C19:gradient-tie-flip" if few else "C19:gradient"
+                    # known finding F23: the gradient is a finite difference of traveltimes; in cells elongated by >= 4:1 the
+                    # difference across the thin axis is tiny against the traveltimes themselves, and rounding-size
+                    # differences of the traveltimes (within 1e-9) become up to 1e-5 of the unit gradient vector
+                    dd_g = cj["desc"]["d"]
+                    if not few and name.startswith("gradient") and max(dd_g) / min(dd_g) >= 4 and \
+                            max((abs(x - y) for x, y in zip(a, b) if not (math.isnan(x) or math.isnan(y))), default=0.0) <= 1e-5:
+                        key = "C19:gradient-cancellation-elongated-cells"
                 else:
                     key = f"C19:{name}"
                 # known finding F16: the off-node source initialisation is ill-conditioned for sub-cell offsets between
